@@ -13,7 +13,8 @@ N = 60 if tier == 'quick' else 1500
 from pmutt.empirical.nasa import Nasa
 from pmutt.io.thermdat import write_thermdat, read_thermdat
 
-ALPHA = 'ABCDEFGHIJKLMNOPQRSTUVWXYZabcdefghijklmnopqrstuvwxyz0123456789()*_-+#'
+# every non-blank printable ASCII character may occur in a name (the property's alphabet); letters and digits dominate
+ALPHA = 'ABCDEFGHIJKLMNOPQRSTUVWXYZabcdefghijklmnopqrstuvwxyz0123456789' * 3 + '!"#$%&\'()*+,-./:;<=>?@[\\]^_`{|}~'
 ELS = ['H', 'C', 'O', 'N', 'Pt', 'Cl', 'Na', 'Si', 'He', 'Li', 'Be']
 fails = []
 n = 0
@@ -52,7 +53,7 @@ for case in range(N):
         species.append(Nasa(name=rname(used), T_low=round(rnd.uniform(1, 999), 3), T_mid=round(rnd.uniform(100, 3000), 3),
                             T_high=round(rnd.uniform(1000, 9999.9), 3), a_low=np.array([coef() for _ in range(7)]),
                             a_high=np.array([coef() for _ in range(7)]), elements=els, phase=rnd.choice('GSLB'),
-                            notes=rnd.choice([None, '', 'mynotes', 'TPD'])))
+                            notes=rnd.choice([None, '', 'mynotes', 'TPD', '500 1!ab', 'a!b', '12 34'])))
     kw = dict(write_date=rnd.random() < 0.5)
     if rnd.random() < 0.3:
         kw['supp_txt'] = '!some comment\n!another one'
